@@ -1,6 +1,7 @@
 use crate::common::Tier;
 pub mod c01;
 pub mod c02;
+pub mod c07;
 pub mod c08;
 pub mod c17;
 pub mod c18;
@@ -11,6 +12,7 @@ pub fn run(id: &str, tier: Tier) -> i32 {
     match id {
         "C01" => c01::run(tier),
         "C02" => c02::run(tier),
+        "C07" => c07::run(tier),
         "C08" => c08::run(tier),
         "C17" => c17::run(tier),
         "C18" => c18::run(tier),
@@ -39,6 +41,7 @@ pub fn replay(id: &str, path: &str) -> i32 {
     match id {
         "C01" => c01::replay(&v),
         "C02" => c02::replay(&v),
+        "C07" => c07::replay(&v),
         "C08" => c08::replay(&v),
         "C17" => c17::replay(&v),
         "C19" => c19::replay(&v),
